@@ -581,9 +581,14 @@ func runFilter(in []int64) []int64 {
 	// after every processed Command to keep the order of execution
 	// a worker that crashes on a Command it should never have admitted (e.g. nil TargetObject) has
 	// already deleted it: keep draining so that the Delete shows up in law 104 instead of a bare panic
+	crashes := 0
 	safely := func(f func() bool) (more bool) {
 		defer func() {
-			if recover() != nil {
+			if r := recover(); r != nil {
+				crashes++
+				if crashes > 2*n+4 { // a worker that panics before taking the item off the queue would spin
+					panic(fmt.Sprintf("command worker keeps panicking: %v", r))
+				}
 				more = true
 			}
 		}()
@@ -835,8 +840,8 @@ func laws(sel int, in, got []int64, law func(lsel int, lin []int64, sig string))
 	lin := append(append([]int64{}, in...), got...)
 	law(100+sel, lin, "")
 	if sel == 2 {
-		law(105, lin, "")                              // no request names another incarnation of the target
-		law(106, lin, "C20-target-uid-not-checked") // every request identifies the incarnation the Command names
+		law(105, lin, "")                           // no request names another incarnation; not "some carry the UID, some do not"
+		law(106, lin, "C20-target-uid-not-checked") // fails exactly when requests exist and NONE carries the UID (the finding)
 	}
 }
 
